@@ -11,7 +11,7 @@ from vcommon import *
 PROP = "C12"
 HERE = os.path.dirname(os.path.abspath(__file__))
 TZS = ["UTC", "Asia/Tokyo", "America/Los_Angeles", "Pacific/Kiritimati", "XYZ-14", "ABC+11:30", "Europe/London"]
-KNOBS = ["clock", "tz", "mtime", "heap", "pid", "tmpname", "stack", "envvars"]
+KNOBS = ["clock", "tz", "mtime", "heap", "pid", "tmpname", "stack", "envvars", "cwd", "fds", "perm", "ids"]
 TIMEOUT = 10
 TIME_MACROS = re.compile(r"__DATE__|__TIME__|__TIMESTAMP__")
 
@@ -72,8 +72,12 @@ def gen_env(r):
             "tz": r.pick(TZS), "mtime": r.range(1, 4000000000), "heap": r.u64(), "pid": r.range(2, 4000000),
             "tmpname": "".join(r.pick("abcdefghijklmnopqrstuvwxyzABCDEFGHIJKLMNOPQRSTUVWXYZ0123456789") for _ in range(6)),
             "stack": r.pick([r.range(0, 4000), r.range(0, 120000), r.range(60000, 250000)]),   # bytes of environment: moves the stack by up to 250 KB
+            "cwd": "cw" + "".join(r.pick("abcdefghij_") for _ in range(r.pick([1, 3, 8, 40, 120]))),
+            "fds": r.pick([0, 0, 1, 3, 17]),
+            "perm": [r.pick([0o644, 0o444, 0o755, 0o600]), r.below(2)],
+            "ids": "%d:%d:%d" % (r.pick([0, 1000, 65534]), r.below(2), r.below(100000)),
             "envvars": [r.pick(["/root", "/home/u%d" % r.below(100), "/nonexistent"]), r.pick(["root", "builder", "u%d" % r.below(100)]),
-                        r.pick(["C", "C.UTF-8", "en_US.UTF-8", "POSIX"]), str(r.range(20, 300)), r.pick(["dumb", "xterm-256color", "vt100"])]}
+                        r.pick(["C", "C.UTF-8", "en_US.UTF-8", "POSIX"]), str(r.range(20, 300)), r.pick(["dumb", "xterm-256color", "vt100"]), r.below(2)]}
 
 
 def env_vars(e, sdir, stats):
@@ -81,6 +85,10 @@ def env_vars(e, sdir, stats):
     v = {"PATH": "/usr/bin:/bin", "LANG": ev[2], "LC_ALL": ev[2], "HOME": ev[0], "USER": ev[1], "LOGNAME": ev[1], "COLUMNS": ev[3], "TERM": ev[4], "LD_PRELOAD": os.path.join(sdir, "libenvsim.so"),
          "ENVSIM_SEED": str(e["heap"]), "ENVSIM_EPOCH": str(e["clock"][0]), "ENVSIM_TICK": str(e["clock"][1]), "TZ": e["tz"],
          "ENVSIM_PID": str(e["pid"]), "ENVSIM_TMPTAG": e["tmpname"], "ENVSIM_PAD": "x" * min(e["stack"], 125000), "ENVSIM_PAD2": "y" * max(0, e["stack"] - 125000)}
+    v["ENVSIM_IDS"] = e.get("ids", "0:0:0")
+    ev2 = e.get("envvars") or []
+    if len(ev2) > 5 and ev2[5]:
+        v.update({"TMPDIR": "/tmp", "PWD": "/nonexistent/pwd", "CPATH": "/nonexistent/cpath", "C_INCLUDE_PATH": "/nonexistent/cinc", "SOURCE_DATE_EPOCH": "86400"})
     if stats:
         v["ENVSIM_STATS"] = stats
     return v
@@ -322,8 +330,24 @@ def run_replica(sdir, reps, stage, e, infile, opts, src, wdir, stats, timeout=No
     if "-MD" in opts:
         argv += ["-MF", dep]
     os.utime(infile, (e["mtime"], e["mtime"]))
-    # every replica is invoked as ./chibicc from the same directory: argv[0] ends up in include paths and the
-    # working directory in the debug info `as` writes, neither of which is a difference between compilers
+    # every replica is invoked as ./chibicc: argv[0] ends up in include paths. The working directory is a knob too,
+    # except for -c and link runs (the debug info `as` writes records it, which is not the compiler's doing)
+    records_cwd = not any(o in opts for o in ("-E", "-S", "-M")) or "-c" in opts
+    if e.get("cwd") and not records_cwd:
+        wdir_run = os.path.join(wdir, e["cwd"])
+        os.makedirs(wdir_run, exist_ok=True)
+    else:
+        wdir_run = wdir
+    try:
+        os.chmod(infile, e.get("perm", [0o644, 0])[0])
+        extra_link = infile + ".hardlink"
+        if os.path.lexists(extra_link):
+            os.unlink(extra_link)
+        if e.get("perm", [0, 0])[1]:
+            os.link(infile, extra_link)
+    except OSError:
+        pass
+    real_wdir, wdir = wdir, wdir_run
     link = os.path.join(wdir, "chibicc")
     if os.path.lexists(link):
         os.unlink(link)
@@ -332,8 +356,12 @@ def run_replica(sdir, reps, stage, e, infile, opts, src, wdir, stats, timeout=No
         os.symlink(os.path.join(src, "include"), os.path.join(wdir, "include"))
     # a mutated input may make the front end loop or allocate without bound: 10 s wall / 4 GiB of output at most,
     # and the whole process group (driver and cc1) is killed on expiry
+    extra_fds = [os.open("/dev/null", os.O_RDONLY) for _ in range(e.get("fds", 0))]
     po = subprocess.Popen(argv, cwd=wdir, env=env_vars(e, sdir, stats), stdin=subprocess.DEVNULL, stdout=subprocess.PIPE, stderr=subprocess.PIPE,
-                          start_new_session=True)
+                          start_new_session=True, pass_fds=extra_fds)
+    for fd in extra_fds:
+        os.close(fd)
+    wdir = real_wdir
     try:
         so, se = po.communicate(timeout=timeout or TIMEOUT)
     except subprocess.TimeoutExpired:
